@@ -28,4 +28,4 @@ while [ $# -ge 2 ]; do
   shift 2
 done
 git -C /repo worktree remove --force $wt
-rm -rf /verif/.build/mutant/* 2>/dev/null
+[ -n "$VSEED_KEEP" ] || rm -rf /verif/.build/mutant/* 2>/dev/null
